@@ -18,7 +18,8 @@ func init() {
 				"(3) the two tables stay mutually inverse: every delete/update on one table is matched, under an equivalent reaching condition, by the corresponding operation on the other table for the same entry (so no dangling entry, hence no nil dereference in Remove); " +
 				"(4) an alias (same kernel wd) returns the existing entry and the Add flow never rewrites the path of an existing entry (first name wins); " +
 				"(5) every path-table key on the Add and Remove flows is filepath.Clean of the API argument (or the path stored in an existing entry); " +
-				"(6) Remove deletes only the named entry unless the watch is recursive; WatchList returns exactly the path table's keys. " +
+				"(6) Remove deletes only the named entry unless the watch is recursive; WatchList returns exactly the path table's keys; " +
+				"(7) re-adding a listed path whose descriptor changed releases the old entry (both tables and inotify_rm_watch) on every path, and a descriptor already in the wd table always resolves to its existing entry. " +
 				"Not decided: symlink/hard-link resolution (kernel wd identity); sequences as such.",
 			Rule:        "one obligation per table mutation and calling root, per Add-flow effect, per Remove delete, per path-table key; non-trivial = the mutation is reachable",
 			Assumptions: []string{"go/types + go/ssa", "callbacks run synchronously in their caller", "production folding (E-F)"},
@@ -53,6 +54,7 @@ func runC04(p *Program, e *Engine, r *Result, tier string) {
 		c12PathStores(a, tf, rd, "C04.3")
 	}
 	c04Alias(a, tf, addWith)
+	c04Replace(a, tf, addWith, "C04.7")
 	c04Normaliser(a, tf, []*ssa.Function{addWith, rm})
 	c04RemoveExact(a, tf, rm, "C04.6")
 	c04WatchList(a, tf)
@@ -72,6 +74,86 @@ func syscallVisits(a *An, w *Walker, name string) []*Visit {
 		}
 	}
 	return out
+}
+
+// successLits: literals stating that the syscall visited at call succeeded, in the form the code tests (wd != -1).
+func successLits(call *Visit) []Lit {
+	cp := call.Ctx.path(call.Instr.(*ssa.Call))
+	return []Lit{{A: &Atom{Kind: AkCmp, Subj: cp + "#0", Op: "==", K: "c:-1"}, Neg: true}}
+}
+
+// c04Replace: on the Add flow, a listed path whose descriptor changed has its old entry released (tables and kernel).
+func c04Replace(a *An, tf *tableFacts, addWith *ssa.Function, rule string) {
+	w := a.walk(addWith)
+	adds := syscallVisits(a, w, "InotifyAddWatch")
+	if len(adds) != 1 {
+		return
+	}
+	kctx := adds[0].Ctx
+	wdF, _ := tf.watchFields()
+	wdPath := kctx.path(adds[0].Instr.(*ssa.Call)) + "#0"
+	// the callback's parameter of type *watch: the entry currently listed under the path
+	var existing *ssa.Parameter
+	for _, p := range kctx.Fn.Params {
+		if pt, ok := p.Type().Underlying().(*types.Pointer); ok && types.Identical(pt.Elem(), tf.watchT) {
+			existing = p
+		}
+	}
+	if existing == nil {
+		a.R.ob(rule, "replace:existing-param", "the registration callback receives the entry currently listed under the path", a.P.pos(kctx.Fn.Pos()), false, "no *watch parameter")
+		return
+	}
+	var entry DNF
+	for _, v := range w.Visits {
+		if v.Ctx == kctx {
+			entry = v.Cond
+			break
+		}
+	}
+	ep := kctx.path(existing)
+	T := entry.andLit(Lit{A: &Atom{Kind: AkNil, Subj: ep}, Neg: true})
+	for _, l := range successLits(adds[0]) {
+		T = T.andLit(l)
+	}
+	T = T.andLit(Lit{A: &Atom{Kind: AkCmp, Subj: ep + "." + wdF, Op: "==", K: wdPath}, Neg: true})
+	ops := collectTableOps(a, tf, w)
+	var delWd, delPath, rm DNF
+	_, pathF := tf.watchFields()
+	for _, op := range ops {
+		if op.Kind != "delete" {
+			continue
+		}
+		if op.Table == tf.wdTable && op.Key == stripIDs(ep)+"."+wdF {
+			delWd = delWd.or(op.V.Cond)
+		}
+		if op.Table == tf.pathTable && op.Key == stripIDs(ep)+"."+pathF {
+			delPath = delPath.or(op.V.Cond)
+		}
+	}
+	for _, v := range syscallVisits(a, w, "InotifyRmWatch") {
+		call := v.Instr.(*ssa.Call)
+		if stripIDs(v.Ctx.path(call.Call.Args[1])) == stripIDs(ep)+"."+wdF {
+			rm = rm.or(v.Cond)
+		}
+	}
+	for _, e := range []struct {
+		name string
+		d    DNF
+	}{{"wd-table entry deleted", delWd}, {"path-table entry deleted", delPath}, {"inotify_rm_watch on the old descriptor", rm}} {
+		ok, wit := false, "no such effect on the Add flow"
+		if !e.d.isFalse() {
+			h, ctr, err := implies(T, e.d)
+			if err != nil {
+				a.R.fail("%v", err)
+			}
+			ok = h
+			wit = "listed ∧ success ∧ descriptor changed => " + e.name
+			if !h {
+				wit = "the old watch is kept when " + stripIDs(ctr)
+			}
+		}
+		a.R.ob(rule, "replace:"+strings.Fields(e.name)[0], "re-adding a listed path that now names another file releases the old watch on every path: "+e.name, a.P.instrPos(adds[0].Instr), ok, wit)
+	}
 }
 
 // successLit: the condition "this syscall succeeded" appears in conjunct c.
@@ -317,6 +399,55 @@ func c04Alias(a *An, tf *tableFacts, addWith *ssa.Function) {
 	}
 	a.R.ob("C04.4", "alias:existing-entry-wins", "when the kernel returns a wd that is already in the wd table the registration returns that existing entry (adding an alias changes nothing)",
 		a.P.instrPos(adds[0].Instr), found, "return of wdTable[new wd] under its ok/nil test")
+	// ... and it does so whenever that wd is known: success ∧ ok(wdTable[wd]) => that return
+	kctx := adds[0].Ctx
+	var entry DNF
+	for _, v := range w.Visits {
+		if v.Ctx == kctx {
+			entry = v.Cond
+			break
+		}
+	}
+	var okLit *Lit
+	var retCond DNF
+	for _, v := range w.Visits {
+		if v.Ctx != kctx {
+			continue
+		}
+		if lk, isLk := v.Instr.(*ssa.Lookup); isLk && v.Ctx.fieldOfValue(lk.X) == tf.wdTable && v.Ctx.path(lk.Index) == wdPath {
+			okLit = &Lit{A: &Atom{Kind: AkOk, Subj: v.Ctx.path(lk), V: lk, Ctx: v.Ctx}}
+		}
+		if r, isRet := v.Instr.(*ssa.Return); isRet && len(r.Results) > 0 {
+			rv, rc := v.Ctx.resolve(r.Results[0])
+			var lk *ssa.Lookup
+			if ex, isEx := rv.(*ssa.Extract); isEx {
+				lk, _ = ex.Tuple.(*ssa.Lookup)
+			} else if l, isL := rv.(*ssa.Lookup); isL {
+				lk = l
+			}
+			if lk != nil && rc.fieldOfValue(lk.X) == tf.wdTable && rc.path(lk.Index) == wdPath {
+				retCond = retCond.or(v.Cond)
+			}
+		}
+	}
+	always := false
+	wit := "no comma-ok lookup of the wd table under the new descriptor"
+	if okLit != nil {
+		T := entry.andLit(*okLit)
+		for _, l := range successLits(adds[0]) {
+			T = T.andLit(l)
+		}
+		h, ctr, err := implies(T, retCond)
+		if err != nil {
+			a.R.fail("%v", err)
+		}
+		always = h
+		wit = "success ∧ ok(wdTable[wd]) => return of that entry"
+		if !h {
+			wit = "a known descriptor does not lead to the existing entry when " + stripIDs(ctr)
+		}
+	}
+	a.R.ob("C04.4", "alias:always", "a descriptor that is already in the wd table always resolves to its existing entry, whatever flags or spelling the new Add used", a.P.instrPos(adds[0].Instr), always, wit)
 	// no store to the path field of a non-fresh watch on the Add flow
 	var bad []string
 	for _, v := range w.Visits {
